@@ -185,6 +185,7 @@ func ChunkStream(ctx context.Context, c Chunker, ws WriteStore, n int) (Index, e
 	// order, we calculate the checksum here before handing	them over to the
 	// workers for compression and storage. That could probablybe optimized further
 	var num int // chunk #, so we can re-assemble the index in the right order later
+	var interrupted bool
 loop:
 	for {
 		start, b, err := c.Next()
@@ -198,6 +199,7 @@ loop:
 		// Send it off for compression and storage
 		select {
 		case <-ctx.Done():
+			interrupted = true
 			break loop
 		case in <- chunkJob{num: num, start: start, b: b}:
 		}
@@ -205,7 +207,7 @@ loop:
 	}
 	close(in)
 
-	if err := g.Wait(); err != nil {
+	if err := waitOrInterrupted(g, interrupted); err != nil {
 		return Index{}, err
 	}
 
